@@ -37,6 +37,7 @@ SUITES = {
     'pfs384': {'child_dh': ('ecp384',)},
     'ike_dh_retry': {'dh_ike': ('ecp256', 'ecp384'), 'dh_ike_b': ('ecp384', 'ecp256')},
     'child_dh_retry': {'child_dh': ('ecp256', 'ecp384'), 'child_dh_b': ('ecp384', 'ecp256')},
+    'prf_change': 'prf_change',    # the two peers list the PRFs (and integrity algorithms) in opposite order: a rekey started by the former responder changes the PRF
     'narrow_r': 'narrow_r',        # tunnel mode; the responder's policy narrows its own subnet (/16 -> /24) and the port range
     'narrow_i': 'narrow_i',        # tunnel mode; the responder's policy narrows the initiator's subnet (/16 -> /28)
 }
@@ -52,6 +53,14 @@ def mk_pair(suite):
         p.confdict['bob']['protect'][0].update(encr=['aes256', 'aes128'], integ=['sha512', 'sha1'])
         p.confdict['alice'].update(encr=['aes128'], integ=['sha1'], prf=['sha1'])
         p.confdict['bob'].update(encr=['aes256', 'aes128'], integ=['sha256', 'sha1'], prf=['sha512', 'sha1'])
+        cf = MODS['configuration'].Configuration([world.IP1, world.IP2], p.confdict)
+        p.configuration = cf
+        p.a.configuration = cf.get_ike_configuration(world.IP1, world.IP2)
+        p.b.configuration = cf.get_ike_configuration(world.IP2, world.IP1)
+    elif kw == 'prf_change':
+        p = world.Pair(env_setup=symcrypto.reset)
+        p.confdict['alice'].update(integ=['sha256', 'sha512'], prf=['sha256', 'sha512'])
+        p.confdict['bob'].update(integ=['sha512', 'sha256'], prf=['sha512', 'sha256'])
         cf = MODS['configuration'].Configuration([world.IP1, world.IP2], p.confdict)
         p.configuration = cf
         p.a.configuration = cf.get_ike_configuration(world.IP1, world.IP2)
@@ -180,7 +189,7 @@ def check_rfc_keys(eng, neg, label):
     return None
 
 
-def check_rfc_ike(eng, ini_sa, ni, nr, old_sk_d, label, secret=None):
+def check_rfc_ike(eng, ini_sa, ni, nr, old_sk_d, label, secret=None, old_prf_id=None):
     """the IKE_SA keyring of the exchange initiator is RFC 7296 2.14 (2.18 for a rekey) over THIS exchange's nonces, SPIs and g^ir"""
     from symx import core
     T = MODS['message'].Transform
@@ -196,7 +205,8 @@ def check_rfc_ike(eng, ini_sa, ni, nr, old_sk_d, label, secret=None):
     if old_sk_d is None:
         skeyseed = c04.ref_prf(h, low(nn), secret)
     else:
-        skeyseed = c04.ref_prf(h, old_sk_d, low(L(secret) + nn))
+        # RFC 7296 2.18: the rekey exchange belongs to the OLD IKE_SA, so SKEYSEED is computed with the old IKE_SA's PRF
+        skeyseed = c04.ref_prf(PRF_HASH[old_prf_id], old_sk_d, low(L(secret) + nn))
     km = c04.ref_prfplus(h, skeyseed, low(nn + ini_sa.my_spi + ini_sa.peer_spi), 3 * pk + 2 * ikl + 2 * ekl)
     o = 0
     for name, n in zip(('sk_d', 'sk_ai', 'sk_ar', 'sk_ei', 'sk_er', 'sk_pi', 'sk_pr'), (pk, ikl, ikl, ekl, ekl, pk, pk)):
@@ -317,6 +327,7 @@ def do_rekey_ike(p, eng, checks, who, sa_a=None, sa_b=None):
     world.ENV.now = ini.rekey_ike_sa_at + 10
     n0 = len(NONCES)
     old_sk_d = ini.ike_sa_keyring.sk_d
+    old_prf_id = int(ini.chosen_proposal.get_transform(MODS['message'].Transform.Type.PRF).id)
     req = IE.call(ini.check_rekey_ike_sa_timer)
     assert req is not None
     n_i, n_r = len(IE.kernel.log), len(RE.kernel.log)
@@ -327,7 +338,7 @@ def do_rekey_ike(p, eng, checks, who, sa_a=None, sa_b=None):
     if len(IE.kernel.log) != n_i or len(RE.kernel.log) != n_r:
         return 'IKE_SA rekey touched the kernel', None, None
     bad = check_ike_keys(eng, new_i, new_r, f'IKE_SA rekey initiated by {who}') or \
-        check_rfc_ike(eng, new_i, NONCES[n0], NONCES[n0 + 1], old_sk_d, f'IKE_SA rekey initiated by {who}')
+        check_rfc_ike(eng, new_i, NONCES[n0], NONCES[n0 + 1], old_sk_d, f'IKE_SA rekey initiated by {who}', old_prf_id=old_prf_id)
     return bad, (new_i if who == 'A' else new_r), (new_r if who == 'A' else new_i)
 
 
@@ -383,6 +394,8 @@ def build_instances(tier):
             if tier == 'quick' and suite in ('pfs384', 'aes128_sha1') and sc not in ('init+new@B', 'init+rekey@A'):
                 continue
             if 'cross' in sc and suite not in ('default', 'pfs', 'ah_tunnel'):
+                continue
+            if suite == 'prf_change' and sc not in ('init', 'init+ike@B+rekey@B+new@A', 'init+ike@A+ike@B+new@B', 'init+ike@A+new@A+new@B'):
                 continue
             if suite in NARROW and sc not in ('init', 'init+new@A', 'init+new@B', 'init+rekey@A', 'init+rekey@B', 'init+ike@A+new@A+new@B'):
                 continue
